@@ -2154,21 +2154,18 @@ impl BytecodeVM {
     /// Returns true if an exception handler was found, false if the exception should propagate.
     pub fn inject_exception(&mut self, interp: &mut Interpreter, exception: JsValue) -> bool {
         // Create guarded exception value
-        let guarded = Guarded::from_value(exception, &interp.heap);
+        let guarded = Guarded::from_value(exception.clone(), &interp.heap);
 
-        // Try to find an exception handler
-        if let Some((handler_ip, is_catch)) = self.find_exception_handler(interp) {
-            self.ip = handler_ip;
-            if is_catch {
-                self.exception_value = Some(guarded);
-            } else {
-                self.pending_completion = Some(PendingCompletion::Throw(guarded));
+        // Unwind exactly as a throw at the suspension point would: handlers of the
+        // running frame first, then the calling frames; an async function's frame
+        // turns the exception into the rejection of the promise it returned
+        match self.handle_error_with_trampoline_unwind(interp, JsError::ThrownValue { guarded }) {
+            Ok(()) => true,
+            Err(_) => {
+                // No handler found - store exception for propagation
+                self.exception_value = Some(Guarded::from_value(exception, &interp.heap));
+                false
             }
-            true
-        } else {
-            // No handler found - store exception for propagation
-            self.exception_value = Some(guarded);
-            false
         }
     }
 
